@@ -368,11 +368,152 @@ def translate_array_function(path, func, gen_name, params, ret):
             % (path, func, hashlib.sha256(src.encode()).hexdigest()[:16]))
     return head + 'Definition %s %s : result (%s) :=\n%s.\n' % (gen_name, ' '.join(binders), ret, body), src
 
+
+# ---------------------------------------------------------------------------------------------
+# float mode: float arrays, optional float scalars (target: coq/theories/Model/PyFlt.v).
+# Types: farr (list float), optf (option float; inside an `if x is not None:` branch the value is s_<x>).
+
+class TrFlt:
+    def __init__(self, module_tree, params):
+        self.ty = dict(params)
+        self.known = {}
+        self.imports = {}
+        for n in module_tree.body:
+            if isinstance(n, ast.ImportFrom):
+                for a in n.names:
+                    self.imports[a.asname or a.name] = '%s.%s' % (n.module, a.name)
+            elif isinstance(n, ast.Import):
+                for a in n.names:
+                    self.imports[a.asname or a.name] = a.name
+        if self.imports.get('np') != 'numpy':
+            raise Unsupported('`np` is not numpy')
+
+    def none_test(self, e):
+        """`x is None` / `x is not None` on an optional parameter -> (name, True when the test asks for None)"""
+        if isinstance(e, ast.Compare) and len(e.ops) == 1 and isinstance(e.ops[0], (ast.Is, ast.IsNot)) \
+                and isinstance(e.left, ast.Name) and self.ty.get(e.left.id) == 'optf' \
+                and isinstance(e.comparators[0], ast.Constant) and e.comparators[0].value is None:
+            return e.left.id, isinstance(e.ops[0], ast.Is)
+        raise Unsupported('test ' + ast.dump(e)[:80])
+
+    def scalar(self, e):
+        if isinstance(e, ast.Name) and self.ty.get(e.id) == 'optf':
+            if self.known.get(e.id) is True:
+                return 's_' + e.id
+            raise Unsupported('%s may be None here' % e.id)
+        if isinstance(e, ast.Constant) and isinstance(e.value, int) and not isinstance(e.value, bool) and e.value == 0:
+            return '0'
+        if isinstance(e, ast.Attribute) and isinstance(e.value, ast.Name) and e.value.id == 'np' and e.attr == 'inf':
+            return 'infinity'
+        if isinstance(e, ast.IfExp):
+            name, wants_none = self.none_test(e.test)
+            a, b = (e.body, e.orelse) if wants_none else (e.orelse, e.body)     # a: value when None, b: when given
+            k = self.known.get(name)
+            if k is False:
+                return self.scalar(a)
+            if k is True:
+                return self.scalar(b)
+            va = self._with(name, False, lambda: self.scalar(a))
+            vb = self._with(name, True, lambda: self.scalar(b))
+            return '(match v_%s with None => %s | Some s_%s => %s end)' % (name, va, name, vb)
+        raise Unsupported('scalar ' + ast.dump(e)[:80])
+
+    def _with(self, name, val, f):
+        old = self.known.get(name)
+        self.known[name] = val
+        try:
+            return f()
+        finally:
+            self.known[name] = old
+
+    def arr(self, e):
+        if isinstance(e, ast.Name) and self.ty.get(e.id) == 'farr':
+            return 'v_' + e.id
+        raise Unsupported('expected a float array name')
+
+    def block(self, stmts, rest):
+        if not stmts:
+            if rest is None:
+                raise Unsupported('function can end without `return`')
+            return self.block(rest[0], rest[1])
+        s, tail = stmts[0], stmts[1:]
+        if isinstance(s, ast.Expr) and isinstance(s.value, ast.Constant) and isinstance(s.value.value, str):
+            return self.block(tail, rest)
+        if isinstance(s, ast.Return):
+            v = s.value
+            if not (isinstance(v, ast.Tuple) and len(v.elts) == 2):
+                raise Unsupported('return value')
+            return '  Ok (%s, %s)' % (self.arr(v.elts[0]), self.arr(v.elts[1]))
+        if isinstance(s, ast.If) and not s.orelse:
+            name, wants_none = self.none_test(s.test)
+            if wants_none:
+                raise Unsupported('`if x is None:` statement')
+            k = self.known.get(name)
+            if k is True:
+                return self.block(s.body, (tail, rest))
+            if k is False:
+                return self.block(tail, rest)
+            saved = dict(self.ty)
+            yes = self._with(name, True, lambda: self.block(s.body, (tail, rest)))
+            self.ty = dict(saved)
+            no = self._with(name, False, lambda: self.block(tail, rest))
+            self.ty = saved
+            return '  match v_%s with\n  | Some s_%s =>\n%s\n  | None =>\n%s\n  end' % (name, name, yes, no)
+        if isinstance(s, ast.Expr) and isinstance(s.value, ast.Call) and isinstance(s.value.func, ast.Name) \
+                and s.value.func.id == 'check_param_range':
+            c = s.value
+            if self.imports.get('check_param_range') != 'bycycle.utils.checks.check_param_range':
+                raise Unsupported('check_param_range is not bycycle.utils.checks.check_param_range')
+            if len(c.args) != 3 or c.keywords or not isinstance(c.args[1], ast.Constant) or not isinstance(c.args[2], ast.Tuple) \
+                    or len(c.args[2].elts) != 2:
+                raise Unsupported('check_param_range arguments')
+            return '  if negb (f_in_range %s %s %s) then Err EValue else\n%s' % (
+                self.scalar(c.args[0]), self.scalar(c.args[2].elts[0]), self.scalar(c.args[2].elts[1]), self.block(tail, rest))
+        if isinstance(s, ast.Assign) and len(s.targets) == 1 and isinstance(s.targets[0], ast.Name):
+            tg, v = s.targets[0].id, s.value
+            if self.ty.get(tg) != 'farr':
+                raise Unsupported('assignment to something other than a float array')
+            if not (isinstance(v, ast.Subscript) and isinstance(v.slice, ast.Compare) and len(v.slice.ops) == 1):
+                raise Unsupported('assignment value')
+            cmp_ = v.slice
+            op = {ast.GtE: 'f_ge_scalar', ast.Lt: 'f_lt_scalar'}.get(type(cmp_.ops[0]))
+            if op is None:
+                raise Unsupported('comparison ' + type(cmp_.ops[0]).__name__)
+            code = '(f_mask %s (%s %s %s))' % (self.arr(v.value), op, self.arr(cmp_.left), self.scalar(cmp_.comparators[0]))
+            return '  do v_%s <- %s;\n%s' % (tg, code, self.block(tail, rest))
+        raise Unsupported('statement ' + type(s).__name__)
+
+
+def translate_float_function(path, func, gen_name, params, ret):
+    txt = open(path).read()
+    tree = ast.parse(txt)
+    node, src = _src_of(path, func)
+    a = node.args
+    names = [x.arg for x in a.args]
+    defaults = [None] * (len(names) - len(a.defaults)) + list(a.defaults)
+    if a.vararg or a.kwarg or a.kwonlyargs or a.posonlyargs or node.decorator_list or names != [p for p, _ in params]:
+        raise Unsupported('signature of ' + func)
+    for (p, ty), d in zip(params, defaults):
+        if (ty == 'optf') != (d is not None) or (d is not None and not (isinstance(d, ast.Constant) and d.value is None)):
+            raise Unsupported('default of parameter ' + p)
+    tr = TrFlt(tree, params)
+    body = tr.block(node.body, None)
+    binders = ' '.join('(v_%s : %s)' % (p, {'farr': 'list float', 'optf': 'option float'}[ty]) for p, ty in params)
+    head = ('(* GENERATED by harness/translate.py from %s:%s (sha256 of the function text %s).\n'
+            '   Do not edit: rewritten on every check run. *)\n'
+            'From Coq Require Import List Arith Bool Floats.PrimFloat.\nImport ListNotations.\n'
+            'From ByC Require Import Base.Result Model.Window Model.PyFlt.\n\n'
+            % (path, func, hashlib.sha256(src.encode()).hexdigest()[:16]))
+    return head + 'Definition %s %s : result (%s) :=\n%s.\n' % (gen_name, binders, ret, body), src
+
 # what is translated, and the fixed proof file that must compile against the generated definition
 TARGETS = {
     'C08': [dict(path='/repo/bycycle/burst/utils.py', func='check_min_burst_cycles', gen_module='RunFilterGen',
                  gen_name='check_min_burst_cycles_gen', proof='RunFilterGenProof.v', mode='array',
                  params=[('is_burst', 'barr'), ('min_n_cycles', 'zint')], ret='list bool')],
+    'C18': [dict(path='/repo/bycycle/utils/timeseries.py', func='limit_signal', gen_module='LimitSignalGen',
+                 gen_name='limit_signal_gen', proof='LimitSignalGenProof.v', mode='float',
+                 params=[('times', 'farr'), ('sig', 'farr'), ('start', 'optf'), ('stop', 'optf')], ret='list float * list float')],
     'C19': [dict(path='/repo/bycycle/group/utils.py', func='check_kwargs_shape', gen_module='ShapeCheckGen',
                  gen_name='check_kwargs_shape_gen', proof='ShapeCheckGenProof.v')],
 }
@@ -395,7 +536,9 @@ def check(prop, workdir):
         for f in os.listdir(gd):
             os.remove(os.path.join(gd, f))
         try:
-            if t.get('mode') == 'array':
+            if t.get('mode') == 'float':
+                text, src = translate_float_function(t['path'], t['func'], t['gen_name'], t['params'], t['ret'])
+            elif t.get('mode') == 'array':
                 text, src = translate_array_function(t['path'], t['func'], t['gen_name'], t['params'], t['ret'])
             else:
                 text, src = translate_function(t['path'], t['func'], t['gen_name'])
